@@ -11,6 +11,7 @@ import GoImap.Gen.SourceFacts
 import GoImap.Model.Wire
 import GoImap.Model.Framing
 import GoImap.Model.ClientParse
+import GoImap.Model.CmdGrammar
 namespace GoImap.SourceFactsProps
 open GoImap.Gen.SourceFacts
 
@@ -32,6 +33,13 @@ theorem literal_thresholds :
        ("internal/imapwire/encoder.go", "Encoder.stringLiteral", ">", 4096),
        ("internal/imapwire/encoder.go", "Encoder.validQuoted", ">", 4096)] ∧
     GoImap.Framing.maxBuffered = 4096 := by
+  decide
+
+/-- the limits of the command-grammar model (C02): buffered strings, list nesting, NOT/OR nesting -/
+theorem cmd_grammar_limits :
+    GoImap.CmdGrammar.maxBuffered = 4096 ∧
+    (thresholds.filter fun t => t.2.1 = "Conn.checkBufferedLiteral").map (fun t => (t.2.2.2.1, t.2.2.2.2)) = [(">", GoImap.CmdGrammar.maxBuffered)] ∧
+    maxListDepth = GoImap.CmdGrammar.maxListDepth ∧ maxSearchKeyDepth = GoImap.CmdGrammar.maxSearchKeyDepth := by
   decide
 
 /-- RFC 9051 §3/§6: the least state in which each backend operation may be invoked
